@@ -76,14 +76,14 @@ def intended(ref_text, saved, var):
     text = ref_text
     for name in saved:
         if "{" + name + "}" in text:
-            ph = "zz" + name
+            ph = "zz" + "".join(ch if ch.isalnum() else "_" for ch in name)
             placeholders["#" + ph] = name
             text = text.replace("{" + name + "}", "#" + ph)
     f = formula_of(compile_where(text), var)
     subs = []
     for tagname, name in placeholders.items():
         clause = saved[name]
-        subs.append((var(tagname), intended("W " + clause, {k: v for k, v in saved.items() if k != name}, var)
+        subs.append((var(tagname), intended("W " + clause, saved, var)
                      if "{" in clause else formula_of(compile_where("W " + clause), var)))
     return z3.substitute(f, *subs) if subs else f
 
@@ -104,6 +104,15 @@ def cases(tier):
         cl2r = cl2.replace("#a", "%d").replace("#b", "%e").replace("@c", "%f")
         for ref in REFS2:
             out.append(("two-%s-%s|%s" % (c1, c2, ref), {"q": ("W " + cl1, cl1), "r": ("W " + cl2r + " O alpha", cl2r)}, ref))
+    # reference names as `zorg query -s` and users write them: dashes, sub-directories
+    for nm in ("home-calls", "tmp/tmp_A1B", "a.b"):
+        for cn in ("conj", "alt"):
+            for ref in ("W #x {q}", "W {q} | #x"):
+                out.append(("name-%s-%s|%s" % (nm, cn, ref), {nm: ("S note W " + CLAUSES[cn] + " O alpha", CLAUSES[cn])}, ref.replace("{q}", "{" + nm + "}")))
+    # a diamond: one saved query reaches another along two paths (acyclic)
+    out.append(("diamond", {"q": ("W {m} | {k}", "{m} | {k}"), "m": ("W #a {o}", "#a {o}"), "k": ("W @c {o} O alpha", "@c {o}"),
+                            "o": ("S note W +d | %e G file", "+d | %e")}, "W #x {q}"))
+    out.append(("diamond-top", {"m": ("W #a {o}", "#a {o}"), "k": ("W @c {o}", "@c {o}"), "o": ("W +d | %e", "+d | %e")}, "W {m} | {k} #x"))
     # a chain of depth 3
     out.append(("chain3", {"q": ("W #a {q2}", "#a {q2}"), "q2": ("W {q3} | #b", "{q3} | #b"), "q3": ("W @c | +d O alpha", "@c | +d")}, "W #x {q}"))
     return out
@@ -114,6 +123,7 @@ def expand_real(saved, ref):
     with zreal.TempZdir("c15e") as z:
         (z / "zoq").mkdir()
         for name, (line, _clause) in saved.items():
+            (z / "zoq" / (name + ".zoq")).parent.mkdir(parents=True, exist_ok=True)
             (z / "zoq" / (name + ".zoq")).write_text("# " + line + "\n#\n# SAVED QUERY GENERATED ON 2024-01-01 AT 00:00:00.\n\n")
         return expand_saved_queries(z, ref)
 
@@ -125,6 +135,7 @@ def replay_assignment(saved, ref, assignment, expected_selected):
     with zreal.TempZdir("c15r") as z:
         (z / "zoq").mkdir()
         for name, (line, _clause) in saved.items():
+            (z / "zoq" / (name + ".zoq")).parent.mkdir(parents=True, exist_ok=True)
             (z / "zoq" / (name + ".zoq")).write_text("# " + line + "\n")
         (z / "p.zo").write_text("# page\n\n- 240101#01 witness %s\n- 240101#02 bystander\n" % tags)
         zreal.create_db(z)
@@ -140,11 +151,42 @@ def z3_part(rep, tier):
         t0 = time.time()
         try:
             expanded = expand_real(saved, ref)
-            if expanded is None or "{" in expanded:
-                rep.harness_error("expansion of %r with %r gives %r" % (ref, saved, expanded))
-                continue
-            E = formula_of(compile_where(expanded), var)
             M = intended(ref, {k: v[1] for k, v in saved.items()}, var)
+        except Exception as e:  # noqa
+            rep.harness_error("case %s: %s: %s" % (name, type(e).__name__, e))
+            continue
+        if expanded is None or "{" in expanded:
+            # the set is acyclic and every referenced page exists, yet the expansion failed / left a reference in place:
+            # pick (z3) an assignment that violates the intended meaning and look at what the real query does with it
+            total += 1
+            s0 = z3.Solver()
+            s0.add(z3.Not(M))
+            for t in ("#x", "+y"):
+                if t in ref:
+                    s0.add(var(t))
+            assignment = {}
+            if str(s0.check()) == "sat":
+                m0 = s0.model()
+                assignment = {k: bool(m0.eval(v, model_completion=True)) for k, v in var.v.items()}
+            rec = rep.add("equiv:" + name, "z3", "sat", "expansion of %r gives %r" % (ref, expanded), time.time() - t0, family="equiv",
+                          witness=assignment)
+            try:
+                bad, selected = replay_assignment(saved, ref, assignment, False)
+                err = None
+            except Exception as e:  # noqa
+                bad, selected, err = True, None, "%s: %s" % (type(e).__name__, e)
+            rec["reproduced"] = bad
+            if bad:
+                rep.violation("query %r with the saved queries %r: %s" % (
+                    ref, {k: v[0] for k, v in saved.items()},
+                    ("fails with " + err) if err else "the reference is not expanded (%r) and a note with tags %r that violates the saved WHERE "
+                    "clause is selected" % (expanded, sorted(t for t, x in assignment.items() if x))),
+                    {"query": ref, "saved": {k: v[0] for k, v in saved.items()}, "expanded": expanded, "assignment": assignment, "error": err})
+            else:
+                rep.harness_error("unexpanded reference in %s but the real query behaves as intended" % name)
+            continue
+        try:
+            E = formula_of(compile_where(expanded), var)
         except Exception as e:  # noqa
             rep.harness_error("case %s: %s: %s" % (name, type(e).__name__, e))
             continue
@@ -230,7 +272,7 @@ def main():
         bounds=["%d saved clause shapes x %d wrappings (S/O/G) x %d reference positions; nested references (4 outer shapes); two "
                 "references per query; a chain of depth 3" % (len(CLAUSES), 2 if tier == "quick" else len(WRAPS), len(REFS))],
         outside=["cyclic sets (excluded by the quantifier)", "atoms other than tags in the semantic part (their meaning is C03/C04's subject)",
-                 "reference names with characters outside [A-Za-z0-9_]"])
+                 "reference names beyond the spellings q / home-calls / tmp/tmp_A1B / a.b"])
     n = z3_part(rep, tier)
     rep.note("%d equivalence queries" % n)
     T = 120 if tier == "quick" else 300
